@@ -1,7 +1,7 @@
 (* Corr/C17.v -- correspondence runner for C17: each case carries what the implementation did
    (observed through truth's public extract/compile path by harness/src/bin/c17.rs); [model_of]
    recomputes it with Model/Pixel.v over the generated table. *)
-From TV Require Import Base.I32 Base.F32 Model.Pixel Gen.Pixel.
+From TV Require Import Base.I32 Base.F32 Model.Pixel Gen.Pixel Gen.TexFmt.
 Open Scope Z_scope.
 
 Inductive ires (A : Type) := IOk (a : A) | IErr | IPanic.
@@ -39,7 +39,7 @@ Definition entry_of (d : nat * cspec) : wentry image :=
   {| we_path := fst d; we_specs := specs_of (snd d); we_loaded := LNone |}.
 
 Definition png_of_tex (t : texture) : image :=
-  match produce_image T 0 0 t with
+  match extract_image gen_extract_bound T 0 0 t with
   | Ok im => im
   | _ => {| iw := O; ih := O; irows := [] |}
   end.
@@ -89,7 +89,7 @@ Definition model_of (c : c17case) : bool :=
   | KEnc f argb ps => enc_ok f argb ps
   | KRound t ox oy s r =>
       agree (list_eqb otex_eqb)
-        (do im <- produce_image T ox oy t;
+        (do im <- extract_image gen_extract_bound T ox oy t;
          compile_textures image Some T [SDir [(O, im)]] [entry_of (O, s)]) r
   | KSrc dest srcs r =>
       agree (list_eqb otex_eqb)
